@@ -212,8 +212,8 @@ func (fc *fnCtx) lemmaApply(c *clause, ev *evalCtx) string {
 	if lb == nil {
 		panic(unsupported{"apply: no lemma " + c.gname})
 	}
-	if len(lb.byKind("call")) > 0 || len(lb.byKind("apply")) > 0 {
-		panic(unsupported{"apply: lemma " + c.gname + " uses call/apply clauses and cannot be applied"})
+	if len(lb.byKind("call")) > 0 {
+		panic(unsupported{"apply: lemma " + c.gname + " uses call clauses (its hypotheses are not closed formulas) and cannot be applied"})
 	}
 	for _, pr := range fc.blk.props {
 		if !hasProp(lb.props, pr) {
@@ -235,9 +235,11 @@ func (fc *fnCtx) lemmaApply(c *clause, ev *evalCtx) string {
 	for _, ic := range lb.byKind("induct") {
 		induct = ic.gname
 	}
+	// variables of L that are not instantiated are universally quantified
+	var univ []string
 	for _, vc := range lb.byKind("var") {
 		if _, ok := m[vc.gname]; !ok && vc.gname != induct {
-			panic(unsupported{"apply " + c.gname + ": variable " + vc.gname + " not instantiated"})
+			univ = append(univ, fmt.Sprintf("(%s %s)", vc.gname, vc.gsort))
 		}
 	}
 	var as, ps []string
@@ -255,8 +257,12 @@ func (fc *fnCtx) lemmaApply(c *clause, ev *evalCtx) string {
 			concl = fmt.Sprintf("(=> (>= %s 0) %s)", fc.evalFormula(m[induct], ev), concl)
 		}
 	}
-	if len(as) == 0 {
-		return concl
+	body := concl
+	if len(as) > 0 {
+		body = fmt.Sprintf("(=> (and %s) %s)", strings.Join(as, " "), concl)
 	}
-	return fmt.Sprintf("(=> (and %s) %s)", strings.Join(as, " "), concl)
+	if len(univ) > 0 {
+		body = fmt.Sprintf("(forall (%s) %s)", strings.Join(univ, " "), body)
+	}
+	return body
 }
